@@ -98,6 +98,12 @@ def main():
 
     # our checks against the change, applied to /repo itself and undone straight afterwards
     results = {}
+    # evidence files describe runs on the UNCHANGED tree: keep them out of reach of these runs
+    saved = {}
+    for p in props:
+        ep = os.path.join("/verif/evidence", p + ".json")
+        if os.path.exists(ep):
+            saved[ep] = open(ep).read()
     sh(["git", "-C", "/repo", "apply", patch])
     try:
         for p in props:
@@ -114,6 +120,8 @@ def main():
             print(p, "DETECTED" if detected else "MISSED", lines[:2])
     finally:
         sh("git -C /repo checkout -- . && git -C /repo clean -fdq")
+        for ep, txt in saved.items():
+            open(ep, "w").write(txt)
     ran["checks"] = results
     dst = os.path.join("/verif/seeded", a.sid)
     if os.path.exists(dst):
